@@ -89,3 +89,42 @@ Proof. vm_compute. reflexivity. Qed.
 
 Example split_model_repo_vector : split_model 5 2000 (fun k => 7 + 1000003 * N.of_nat k) 378221 = Some (613, 617).
 Proof. vm_compute. reflexivity. Qed.
+
+(* Termination of ONE attempt: the inner loop runs at most lim - j more times (the `j < lim` guard of the Go loop), so
+   it never needs more fuel than that - whatever the numbers are.  What remains unbounded in SplitPQ is only the NUMBER
+   of attempts (the outer loop), which depends on the random stream. *)
+Lemma rho_inner_terminates what : forall fuel q x y j lim g0,
+  (N.to_nat (lim - j) < fuel)%nat -> rho_inner fuel what q x y j lim g0 <> None.
+Proof.
+  induction fuel as [|f IH]; intros q x y j lim g0 Hf; [lia|]. cbn [rho_inner].
+  destruct (N.ltb_spec j lim) as [Hlt|Hge]; [|discriminate].
+  destruct (N.gcd _ what =? 1); [|discriminate].
+  apply IH. lia.
+Qed.
+
+(* ... and so the only way [rho_outer] can run out of fuel, given enough inner fuel for the largest bound it uses,
+   is that every one of its [fuel] attempts came back without a proper factor *)
+Lemma rho_outer_none_all_failed fi rnd what : forall fuel k i,
+  (N.to_nat (2 ^ (i + N.of_nat fuel + 18)) < fi)%nat ->
+  rho_outer fuel fi rnd k what i = None ->
+  forall a, (a < fuel)%nat ->
+    exists g, rho_inner fi what ((N.land (rnd (k + 2 * a)%nat) 15 + 17) mod what)
+                (rnd (S (k + 2 * a)) mod (what - 1) + 1) (rnd (S (k + 2 * a)) mod (what - 1) + 1) 1
+                (2 ^ (i + N.of_nat a + 18)) 0 = Some g /\ ((1 <? g) && (g <? what) = false).
+Proof.
+  induction fuel as [|f IH]; intros k i Hfi Hnone a Ha; [lia|].
+  cbn [rho_outer] in Hnone.
+  set (q := (N.land (rnd k) 15 + 17) mod what) in *.
+  set (x := rnd (S k) mod (what - 1) + 1) in *.
+  destruct (rho_inner fi what q x x 1 (2 ^ (i + 18)) 0) as [g|] eqn:Hi.
+  2:{ exfalso. revert Hi. apply rho_inner_terminates.
+      assert (2 ^ (i + 18) <= 2 ^ (i + N.of_nat (S f) + 18)) by (apply N.pow_le_mono_r; lia). lia. }
+  destruct ((1 <? g) && (g <? what)) eqn:Hg; [discriminate|].
+  destruct a as [|a].
+  - exists g. rewrite Nat.mul_0_r, Nat.add_0_r, N.add_0_r. fold q x. split; [exact Hi|exact Hg].
+  - assert (Hfi' : (N.to_nat (2 ^ (i + 1 + N.of_nat f + 18)) < fi)%nat).
+    { replace (i + 1 + N.of_nat f + 18) with (i + N.of_nat (S f) + 18) by lia. exact Hfi. }
+    destruct (IH (S (S k)) (i + 1) Hfi' Hnone a ltac:(lia)) as [g' [H1 H2]].
+    exists g'. replace (k + 2 * S a)%nat with (S (S k) + 2 * a)%nat by lia.
+    replace (i + N.of_nat (S a) + 18) with (i + 1 + N.of_nat a + 18) by lia. split; assumption.
+Qed.
